@@ -430,13 +430,13 @@ func (sp *specParser) primary() (*Node, error) {
 // contracts
 
 type Clause struct {
-	Kind  string // requires, ensures, panics_only_if, ensures_on_panic, invariant, decreases, assume
-	Label string
-	Props []string // property ids this clause serves (empty = function default)
-	Expr  *Node
-	Src   string
-	Loop  int // invariant/decreases: loop ordinal
-	Lhs   *Node // ghost_set target
+	Kind   string // requires, ensures, panics_only_if, ensures_on_panic, invariant, decreases, assume
+	Label  string
+	Props  []string // property ids this clause serves (empty = function default)
+	Expr   *Node
+	Src    string
+	Loop   int    // invariant/decreases: loop ordinal
+	Lhs    *Node  // ghost_set target
 	Callee string // call_requires: short name of the callee
 }
 
@@ -447,22 +447,23 @@ type AssignItem struct {
 }
 
 type Contract struct {
-	Key       string // full name as types.Func.FullName() gives it (or Outer$N for closures)
-	Pkg       string // package path the contract file belongs to ("" for extern specs)
-	File      string
-	Extern    bool // body not in /repo: assumed
-	Trusted   bool // body in /repo but not verified (stated assumption)
-	Props     []string
-	Clauses   []*Clause
-	Assigns   []AssignItem
-	AssignsEv bool // assigns everything (default for uncontracted)
-	HasAssign bool
-	Pure      bool   // no heap effects, result is a function of args (and heap)
-	Safety    string // "all" (default), "off", "nonil"
-	Fresh     bool   // result is a freshly allocated reference / slice backing
-	MayPanic  bool   // extern: may panic for reasons outside the model (no clause)
-	FuncValuePanics bool // calls through func values fork a panic path (C19)
-	Used      bool
+	Key             string // full name as types.Func.FullName() gives it (or Outer$N for closures)
+	Pkg             string // package path the contract file belongs to ("" for extern specs)
+	File            string
+	Extern          bool // body not in /repo: assumed
+	Trusted         bool // body in /repo but not verified (stated assumption)
+	Props           []string
+	Clauses         []*Clause
+	Assigns         []AssignItem
+	AssignsEv       bool // assigns everything (default for uncontracted)
+	HasAssign       bool
+	Pure            bool   // no heap effects, result is a function of args (and heap)
+	Safety          string // "all" (default), "off", "nonil"
+	Fresh           bool   // result is a freshly allocated reference / slice backing
+	MayPanic        bool   // extern: may panic for reasons outside the model (no clause)
+	FuncValuePanics bool   // calls through func values fork a panic path (C19)
+	Dispatch        bool   // interface method: at a call site fork over the implementations under contract in /repo
+	Used            bool
 }
 
 func (c *Contract) clauses(kind string) []*Clause {
@@ -758,6 +759,8 @@ func parseClause(c *Contract, word, rest string) error {
 		c.HasAssign = true
 	case "fresh":
 		c.Fresh = true
+	case "dispatch":
+		c.Dispatch = true
 	case "may_panic":
 		c.MayPanic = true
 	case "funcvalue_may_panic":
@@ -808,9 +811,9 @@ func parseClause(c *Contract, word, rest string) error {
 			return err
 		}
 		c.Clauses = append(c.Clauses, &Clause{Kind: "ghost_set", Label: fmt.Sprintf("ghost%d", len(c.Clauses)), Expr: rhs, Lhs: lhs, Src: rest})
-	case "requires", "ensures", "panics_only_if", "ensures_on_panic", "invariant", "decreases", "assume":
+	case "requires", "ensures", "ensures_local", "panics_only_if", "ensures_on_panic", "invariant", "decreases", "assume", "step", "enter":
 		loop := 0
-		if word == "invariant" || word == "decreases" {
+		if word == "invariant" || word == "decreases" || word == "step" || word == "enter" {
 			w2, r2 := splitWord(rest)
 			if w2 == "loop" {
 				var n int
